@@ -112,8 +112,13 @@ def run(ctx):
                 owners[k] = []
                 lines.append(row)
             owners[k].append(b)
+    aseen = {}
     for b, row in aborts:
-        ctx.violation(key_of(row), "%s build: the library ABORTED on an admissible input (%s, class %s, level %s, signal %s): an internal precondition "
+        k = key_of(row)
+        aseen[k] = aseen.get(k, 0) + 1
+        if aseen[k] > 1:
+            continue
+        ctx.violation(k, "%s build: the library ABORTED on an admissible input (%s, class %s, level %s, signal %s): an internal precondition "
                       "is violated by the caller-visible contract" % (b, row.get("in"), row.get("cls"), row.get("l"), row.get("signal")),
                       {"build": b, "line": row, "how": "VERIF_SEED=%d drv_bign(%s) record %s, case idx %s" % (ctx.seed, b, tier, row.get("idx"))})
     path = ctx.path("lines.ndjson")
@@ -133,6 +138,7 @@ def run(ctx):
                              ", verify after sign: %s" % row["vrc"] if "vrc" in row else ", KeypairVal: %s" % row["val"] if "val" in row else ""),
                           {"line": row, "how": "re-run ./check C02; the line is judged by spec/trace/Trace_Bign.tla"})
     ev.cov["disagreeing_lines_by_key"] = seen
+    ev.cov["aborts_by_key"] = aseen
     vlib.log("[C02] %d distinct lines judged, %d disagree, %d aborts (%.0fs)" % (n, len(bad), len(aborts), time.time() - t0))
     # binding self-test: corrupt one output / flip one verdict per operation
     mut, ops = [], set()
